@@ -170,7 +170,8 @@ class SphereBoundary(BoundaryDomain):
         # Use Fibonacci-Sphere for radius = 1, and then scale this sphere
         phi = np.pi * (3.0 - np.sqrt(5.0))  # golden angle in radians
         index = torch.arange(0, n, device=device)
-        y = 1 - index / (n - 1) * 2  # y goes from 1 to -1
+        # y goes from 1 to -1 (a single point sits on the pole y = 1)
+        y = 1 - index / max(n - 1, 1) * 2
         current_radius = torch.sqrt(1 - y**2)
         theta = phi * index
         x = current_radius * torch.cos(theta)
